@@ -126,7 +126,7 @@ func short(d string) string {
 // Op is one store operation of a history.
 type Op struct {
 	Kind string            `json:"op"` // push | pushbad | tag | untag | delete | gc | saveindex
-	Node int               `json:"node,omitempty"`
+	Node int               `json:"node"`
 	Ref  string            `json:"ref,omitempty"`
 	Ann  map[string]string `json:"ann,omitempty"` // annotations of the descriptor passed to Tag
 	Err  string            `json:"err,omitempty"` // outcome class, filled by the executor
@@ -351,7 +351,7 @@ func (g *OpGen) Next(ctx context.Context, rng *rand.Rand, s *oci.Store) Op {
 			if len(have) == 0 {
 				continue
 			}
-			return Op{Kind: "delete", Node: have[rng.IntN(len(have))]}
+			return Op{Kind: "delete", Node: pickTagTarget(rng, g.Nodes, have)}
 		case "gc":
 			return Op{Kind: "gc"}
 		case "saveindex":
@@ -361,7 +361,8 @@ func (g *OpGen) Next(ctx context.Context, rng *rand.Rand, s *oci.Store) Op {
 	return Op{Kind: "saveindex"}
 }
 
-// pickTagTarget prefers manifests (three times out of four) over plain blobs.
+// pickTagTarget prefers manifests (three times out of four) over plain blobs
+// (also used for Delete: removing a manifest has the richer consequences).
 func pickTagTarget(rng *rand.Rand, nodes []Node, have []int) int {
 	var ms []int
 	for _, id := range have {
